@@ -10,7 +10,7 @@ COQ_CHECK = "M_Ucs.check_case"
 OBLIGATIONS = ["max_footprint_spec", "accept_safe", "accept_safe_level", "capacity_safe",
                "placement_inv_partial", "done_report_inv", "replica_hosts_inv", "ucs_token_conserved_partial", "ucs_token_unique",
                "ucs_token_invariant", "ucs_replicated_once", "ucs_no_raise", "ucs_progress", "ucs_quiescent_all_done",
-               "ucs_holders_inv", "placement_inv", "ucs_token_variant", "ucs_token_initial_measure"]
+               "ucs_holders_inv", "placement_inv", "ucs_token_variant", "ucs_token_initial_measure", "ucs_terminates"]
 N_QUICK, N_THOROUGH = 300, 4000
 PARALLEL = 8
 SHARD = 60
